@@ -352,13 +352,14 @@ def body(run: Run, replay):
                 msg = "a pool was created although the decision table says serial"
             elif d["mode"] == "yes" and len(pids) > d["w"]:
                 msg = "%d worker processes took tasks, the decision table allows %d" % (len(pids), d["w"])
-            if msg is None:
-                ref = srsmod.srs(sigs[size], 1000.0, freqd, 15.0, parallel="no", getresp=gr)
-                if [a for _, a in flat(np, out)] != [b for _, b in flat(np, ref)]:
-                    msg = "the result differs from the serial one"
+            what = "srs(parallel=%r, %d frequencies, %d values, getresp=%s, %d processors, maxcpu=%r)" % (par, nf, size, gr, ncpu, mx or None)
             if msg:
-                run.violation("srs(parallel=%r, %d frequencies, %d values, getresp=%s, %d processors, maxcpu=%r): %s" % (
-                    par, nf, size, gr, ncpu, mx or None, msg), {"grid": list(g), "decision": d}, {"fn": "srs", "part": "decide"})
+                # whether a pool is used and how large it is are heuristics: the property (parallel = serial, bit for bit) does not
+                # depend on them, so a different choice is a deviation from the growth spec, not a violation
+                run.deviation("ParPool.Decide", "%s: %s" % (what, msg), {"grid": list(g), "decision": d})
+            ref = srsmod.srs(sigs[size], 1000.0, freqd, 15.0, parallel="no", getresp=gr)
+            if [a for _, a in flat(np, out)] != [b for _, b in flat(np, ref)]:
+                run.violation("%s: the result differs from the serial one" % what, {"grid": list(g), "decision": d}, {"fn": "srs", "part": "decide"})
             run.trace_validated()
     finally:
         _mp.cpu_count = real_count
